@@ -28,6 +28,8 @@ type Job struct {
 	First     int
 	Types     []uint16
 	Mons      map[string]bool
+	N         int    // scale: history size
+	Scenario  string // scale: which family
 }
 
 var monOf = map[string][]string{
@@ -66,14 +68,16 @@ func runJob(j Job) *Stats {
 	case "types":
 		return typesPass(j.Cfg, j.Types, j.Mons)
 	case "scale":
-		return scalePass(j.Cfg, j.Mons)
+		return scalePass(j.Cfg, j.Mons, j.N, j.Scenario)
 	}
 	return &Stats{Cap: "unknown mode"}
 }
 
-// scalePass: long deterministic histories under a large maxInFlight, all monitors on.
-func scalePass(cfg Config, mons map[string]bool) *Stats {
-	st := &Stats{Config: cfg.String(), Mode: "scale", Exhaustive: true}
+// scalePass: long deterministic histories under a large maxInFlight, the selected monitors on.
+// Thresholds inside an implementation (batch limits, per-event record limits, pre-allocation
+// clamps) sit far above the small configurations; each scenario drives ONE quantity to n.
+func scalePass(cfg Config, mons map[string]bool, n int, scenario string) *Stats {
+	st := &Stats{Config: cfg.String(), Mode: "scale:" + scenario, Exhaustive: true}
 	sigSeen := map[string]bool{}
 	mk := func(name string, build func() []Op) {
 		hist := build()
@@ -89,53 +93,98 @@ func scalePass(cfg Config, mons map[string]bool) *Stats {
 				if len(short) > 12 {
 					short = append(append([]Op{}, hist[:4]...), hist[len(hist)-4:]...)
 				}
-				st.Viol = append(st.Viol, FoundViolation{Mon: v.Mon, Sub: v.Sub, What: name + ": " + v.What, Config: cfg, History: short})
+				st.Viol = append(st.Viol, FoundViolation{Mon: v.Mon, Sub: v.Sub, What: fmt.Sprintf("%s (n=%d): %s", name, n, v.What), Config: cfg, History: short})
 			}
 		}
-		st.Samples = append(st.Samples, fmt.Sprintf("%s (%d ops) => %d callbacks", name, len(hist), in.callbacks))
+		st.Samples = append(st.Samples, fmt.Sprintf("%s (n=%d, %d ops) => %d callbacks", name, n, len(hist), in.callbacks))
+		st.Outcomes++
 	}
-	n := 1500
 	push := func(i int, kind string) Op { return Op{Code: opPush, Seq: cfg.Base + uint32(i), Kind: kind} }
-	// (a) n never-completing events, time passes, ONE Maintain must flush them all; then Close
-	mk("n incomplete events; tick; Maintain; Close", func() []Op {
-		var h []Op
-		for i := 0; i < n; i++ {
-			h = append(h, push(i, "mid"))
-		}
-		h = append(h, Op{Code: opTick, Delta: 5}, Op{Code: opMaintain}, Op{Code: opClose})
-		return h
-	})
-	// (b) n events, every third complete, gaps of 1 every 7th, flushed by Close
-	mk("n events with gaps; Close", func() []Op {
-		var h []Op
-		for i := 0; i < n; i++ {
-			if i%7 == 3 {
-				continue
+	switch scenario {
+	case "mixed":
+		// (a) n never-completing events, time passes, ONE Maintain must flush them all; then Close
+		mk("n incomplete events; tick; Maintain; Close", func() []Op {
+			var h []Op
+			for i := 0; i < n; i++ {
+				h = append(h, push(i, "mid"))
 			}
-			k := "mid"
-			if i%3 == 0 {
-				k = "fin"
+			h = append(h, Op{Code: opTick, Delta: 5}, Op{Code: opMaintain}, Op{Code: opClose})
+			return h
+		})
+		// (b) n events, every third complete, gaps of 1 every 7th, flushed by Close
+		mk("n events with gaps; Close", func() []Op {
+			var h []Op
+			for i := 0; i < n; i++ {
+				if i%7 == 3 {
+					continue
+				}
+				k := "mid"
+				if i%3 == 0 {
+					k = "fin"
+				}
+				h = append(h, push(i, k))
 			}
-			h = append(h, push(i, k))
-		}
-		h = append(h, Op{Code: opClose})
-		return h
-	})
-	// (c) interleaved two-record events arriving in reverse order inside blocks of 40, then a push after the timeout
-	mk("reversed blocks; tick; push; Close", func() []Op {
-		var h []Op
-		for b := 0; b < n/40; b++ {
-			for i := 39; i >= 0; i-- {
-				h = append(h, push(b*40+i, "mid"))
+			h = append(h, Op{Code: opClose})
+			return h
+		})
+		// (c) interleaved two-record events arriving in reverse order inside blocks of 40, then a push after the timeout
+		mk("reversed blocks; tick; push; Close", func() []Op {
+			var h []Op
+			for b := 0; b < n/40; b++ {
+				for i := 39; i >= 0; i-- {
+					h = append(h, push(b*40+i, "mid"))
+				}
+				for i := 0; i < 40; i += 2 {
+					h = append(h, push(b*40+i, "path"))
+				}
 			}
-			for i := 0; i < 40; i += 2 {
-				h = append(h, push(b*40+i, "path"))
+			h = append(h, Op{Code: opTick, Delta: 5}, push(n+10, "mid"), Op{Code: opMaintain}, Op{Code: opClose})
+			return h
+		})
+	case "gaps-one-maintain":
+		// (d) a gap in front of EVERY event (sequences step by 2), all flushed by ONE Maintain after the
+		// timeout: whatever batch boundary an implementation has, a gap sits on it
+		mk("n incomplete events 2 apart; tick; Maintain; Close", func() []Op {
+			var h []Op
+			for i := 0; i < n; i++ {
+				h = append(h, push(2*i, "mid"))
 			}
-		}
-		h = append(h, Op{Code: opTick, Delta: 5}, push(n+10, "mid"), Op{Code: opMaintain}, Op{Code: opClose})
-		return h
-	})
-	st.Outcomes = 3
+			h = append(h, Op{Code: opTick, Delta: 5}, Op{Code: opMaintain}, Op{Code: opMaintain}, Op{Code: opClose})
+			return h
+		})
+	case "gaps-one-push":
+		// (g) n complete events 2 apart queue up behind an incomplete head; the head's EOE releases all of
+		// them in ONE PushMessage call
+		mk("incomplete head; n complete events 2 apart; EOE of the head; Close", func() []Op {
+			h := []Op{push(0, "mid")}
+			for i := 1; i <= n; i++ {
+				h = append(h, push(2*i, "fin"))
+			}
+			h = append(h, push(0, "eoe"), Op{Code: opMaintain}, Op{Code: opClose})
+			return h
+		})
+	case "huge-event":
+		// (e) ONE event receives n records while a lower sequence is still pending: nothing may be
+		// delivered before the lower event's EOE, then both in order
+		mk("pending lower event; n records of one event; EOE of the lower; Close", func() []Op {
+			h := []Op{push(0, "mid")}
+			for i := 0; i < n; i++ {
+				h = append(h, push(1, "path"))
+			}
+			h = append(h, Op{Code: opMaintain}, push(0, "eoe"), Op{Code: opClose})
+			return h
+		})
+	case "fill":
+		// (f) exactly maxInFlight incomplete events may sit in the buffer: none is delivered before Close
+		mk("maxInFlight incomplete events; Maintain; Close", func() []Op {
+			var h []Op
+			for i := 0; i < n; i++ {
+				h = append(h, push(i, "mid"))
+			}
+			h = append(h, Op{Code: opMaintain}, Op{Code: opClose})
+			return h
+		})
+	}
 	return st
 }
 
@@ -256,8 +305,35 @@ func buildJobs(prop, tier string) []interface{} {
 	}
 	// scale: thresholds inside the implementation (batch limits, table sizes) are far above the
 	// small configurations; a few long deterministic histories with a large maxInFlight
-	jobs = append(jobs, Job{Mode: "scale", Cfg: Config{MaxInFlight: 3000, TimeoutTicks: 2, Base: 1<<32 - 800, Offsets: []uint32{0}, Kinds: []string{"mid"}, MaxRecs: 3, PostClose: 1}})
-	jobs = append(jobs, Job{Mode: "scale", Cfg: Config{MaxInFlight: 1000, TimeoutTicks: farTimeout, Base: 1<<31 - 900, Offsets: []uint32{0}, Kinds: []string{"mid"}, MaxRecs: 3, PostClose: 1}})
+	jobs = append(jobs, Job{Mode: "scale", Scenario: "mixed", N: 1500, Cfg: Config{MaxInFlight: 3000, TimeoutTicks: 2, Base: 1<<32 - 800, Offsets: []uint32{0}, Kinds: []string{"mid"}, MaxRecs: 3, PostClose: 1}})
+	jobs = append(jobs, Job{Mode: "scale", Scenario: "mixed", N: 1500, Cfg: Config{MaxInFlight: 1000, TimeoutTicks: farTimeout, Base: 1<<31 - 900, Offsets: []uint32{0}, Kinds: []string{"mid"}, MaxRecs: 3, PostClose: 1}})
+	big := 20000
+	if thorough {
+		big = 70000
+	}
+	jobs = append(jobs, Job{Mode: "scale", Scenario: "gaps-one-maintain", N: 3000, Cfg: Config{MaxInFlight: 5000, TimeoutTicks: 2, Base: 5, Offsets: []uint32{0}, Kinds: []string{"mid"}, MaxRecs: 3, PostClose: 1}})
+	jobs = append(jobs, Job{Mode: "scale", Scenario: "gaps-one-push", N: 3000, Cfg: Config{MaxInFlight: 5000, TimeoutTicks: farTimeout, Base: 1<<32 - 1000, Offsets: []uint32{0}, Kinds: []string{"mid"}, MaxRecs: 3, PostClose: 1}})
+	jobs = append(jobs, Job{Mode: "scale", Scenario: "huge-event", N: big, Cfg: Config{MaxInFlight: 5, TimeoutTicks: farTimeout, Base: 5, Offsets: []uint32{0}, Kinds: []string{"mid"}, MaxRecs: 3, PostClose: 1}})
+	jobs = append(jobs, Job{Mode: "scale", Scenario: "fill", N: big, Cfg: Config{MaxInFlight: big, TimeoutTicks: farTimeout, Base: 5, Offsets: []uint32{0}, Kinds: []string{"mid"}, MaxRecs: 3, PostClose: 1}})
+	// sequence numbers about 2^31 away from the delivery position (the stated order treats numbers more
+	// than 2^24-1 apart as rolled over); loss counting is only defined inside one window, so not for C03
+	if prop != "C03" {
+		for _, m := range []int{2, 4} {
+			cfg := Config{MaxInFlight: m, TimeoutTicks: farTimeout, Base: 1000, Offsets: []uint32{0, 1<<31 - 2, 1<<31 - 1, 1 << 31, 1<<31 + 1}, Kinds: []string{"mid", "fin", "eoe"}, MaxRecs: 2, PostClose: 1}
+			jobs = append(jobs, Job{Mode: "bfs", Cfg: cfg, MaxStates: maxStates})
+		}
+	}
+	// records stamped by the kernel around the (virtual) present and records of one event whose stamps are
+	// further apart than the timeout: time-driven logic may not look at them
+	for _, m := range []int{1, 2} {
+		cfg := Config{MaxInFlight: m, TimeoutTicks: 2, Base: 5, Offsets: []uint32{0, 1}, Kinds: []string{"mid", "midTs", "midNow", "midRawNow", "fin", "eoe"}, Ticks: []int{1, 3}, MaxRecs: 2, PostClose: 1}
+		jobs = append(jobs, Job{Mode: "bfs", Cfg: cfg, MaxStates: maxStates})
+	}
+	// timeouts with a gap in front of an event that is NOT the last one a Maintain releases
+	for _, o := range [][]uint32{{0, 2, 3}, {0, 2, 4}} {
+		cfg := Config{MaxInFlight: 3, TimeoutTicks: 2, Base: 5, Offsets: o, Kinds: []string{"mid", "fin"}, Ticks: []int{3}, MaxRecs: 2, PostClose: 1}
+		jobs = append(jobs, Job{Mode: "bfs", Cfg: cfg, MaxStates: maxStates})
+	}
 	// a Stream that re-enters the Reassembler from its callback (C01 only: grouping / exactly once)
 	if prop == "C01" {
 		for _, m := range []int{1, 2, 3} {
